@@ -722,6 +722,9 @@ func (ch c13) Run(c *core.Ctx) {
 		fix(&k, rng)
 		ch.runCase(c, env, k, rng, idx)
 	}
+	if c.Batch == 1%nb && c.Begin(2999990) {
+		ch.oneSegment(c, env)
+	}
 	// COPY started by a statement without columns: CopyIn fails, the handler's error ends the cycle
 	if c.Begin(2999999) {
 		for _, exec := range []bool{false, true} {
@@ -836,6 +839,56 @@ func (ch c13) Run(c *core.Ctx) {
 			}
 			cl.C.CloseWrite()
 			cl.C.WaitClosed()
+		}
+	}
+}
+
+// oneSegment: the whole COPY - start, data, the message that ends it - and what the client sends next
+// (Sync, a Query) travel in one segment (a client that does not wait for replies). Whatever the COPY
+// machinery reads ahead of the end of the COPY belongs to the command loop: every message is answered.
+func (ch c13) oneSegment(c *core.Ctx, env *hs.Env) {
+	probe := &hs.Prog{Stmts: []*hs.Stmt{{ID: "probe", Cols: textCols(1), Ops: []hs.Op{{K: "row", Vals: []any{"p"}}, {K: "complete", Tag: "SELECT 1"}}}}}
+	for v := 0; v < 8; v++ {
+		exec, fail, binary := v&1 == 1, v&2 == 2, v&4 == 4
+		plan := &hs.CopyPlan{Format: wire.TextFormat, MaxReads: -1, OnErr: "propagate"}
+		data := [][]byte{[]byte("a\t1\n"), []byte("b\t2\n")}
+		if binary {
+			t := c14table{OIDs: []uint32{pg.OIDText}, Rows: [][]any{{"one"}, {"two"}}, Trailer: true}
+			stream, ends := t.encode()
+			plan = &hs.CopyPlan{Format: wire.BinaryFormat, MaxReads: -1, OnErr: "propagate", Binary: true}
+			data = [][]byte{stream[:ends[0]], stream[ends[0]:]}
+		}
+		sess := &hs.Sess{Progs: map[string]*hs.Prog{"copy": {Stmts: []*hs.Stmt{{ID: "copy", Cols: textCols(1), Params: []oid.Oid{}, Ops: []hs.Op{{K: "copy", Copy: plan}}}}}, "probe": probe}}
+		cl := hs.NewClient(env.Dial(sess))
+		if err := cl.StartupOK("u"); err != nil {
+			continue
+		}
+		in, want := pg.Query("copy"), "TG"
+		if exec {
+			in, want = append(append(pg.Parse("", "copy", nil), pg.Bind("", "", nil, nil, nil)...), pg.Execute("", 0)...), "12G"
+		}
+		for _, d := range data {
+			in = append(in, pg.CopyData(d)...)
+		}
+		if fail {
+			in, want = append(in, pg.CopyFail("client gives up")...), want+"E"
+		} else {
+			in, want = append(in, pg.CopyDone()...), want+"C"
+		}
+		if !exec {
+			want += "Z" // the simple-query cycle ends by itself
+		}
+		in, want = append(append(in, pg.Sync()...), pg.Query("probe")...), want+"ZTDCZ"
+		out, closed := cl.Step(in)
+		if hangCheck(c, cl, nil) {
+			return
+		}
+		cl.Finish()
+		c.Count("copy_and_what_follows_in_one_segment", 1)
+		c.Eval(fmt.Sprintf("one segment %d", v), true)
+		if got := pg.Types(mustMsgs(out)); closed || got != want {
+			c.Violate("reply", "messages sent behind the end of a COPY in the same segment are not all answered", fmt.Sprintf("exec=%v fail=%v binary=%v: got %q want %q (closed=%v)", exec, fail, binary, got, want, closed), map[string]any{"workload": "COPY and what follows in one segment", "variant": v})
+			return
 		}
 	}
 }
